@@ -3,7 +3,8 @@ Props/C11 — property theorems for C11 (the TOC cache never yields a wrong tabl
 Helper lemmas are in Proofs/C11*.  Every theorem is about Model/C11, whose file-name patterns, indent,
 encoder/decoder keys and class names are regenerated from /repo (Gen/C11).
 -/
-import CfVerif.Proofs.C11
+import CfVerif.Base.Struct
+import CfVerif.Proofs.C11Cache
 namespace CfVerif.C11
 open CfVerif
 
@@ -66,6 +67,160 @@ theorem used_only_on_crc_match (fs : FS) (c : Cache) (crc : Nat) (v : JVal) (hs 
   subst this
   exact ⟨d, bs, hm, hr, hl⟩
 
+theorem insert_keeps_stored (fs : FS) (c : Cache) (crc : Nat) (toc : Toc) (hc : crc < 4294967296) (hs : c.Stored) :
+    (c.insert fs crc toc).2.Stored := insert_stored fs c crc toc hc hs
+
+/-- The checksum handed to `fetch`/`insert` by `TocFetcher` is the `I` (u32) field of the info packet. -/
+theorem gen_crc_is_u32 : Gen.C11.infoFmts.map (fun f => (parseFmt f).map fun l => l.getLast?) =
+    [some (some .I), some (some .I)] := by decide
+
+/-! ## Clause 2: what is loaded is entry-for-entry what was stored (log and parameter elements) -/
+
+theorem gen_keys : Gen.C11.encoderKeys = ["__class__", "ident", "group", "name", "ctype", "pytype", "access"] ∧
+    Gen.C11.encoderParamKeys = ["extended"] ∧
+    Gen.C11.decoderKeys = ["ident", "group", "name", "ctype", "pytype", "access"] ∧
+    Gen.C11.decoderParamKeys = ["extended"] ∧
+    Gen.C11.logClassName = "LogTocElement" ∧ Gen.C11.paramClassName = "ParamTocElement" ∧
+    Gen.C11.fetchPattern = "%08X.json" ∧ Gen.C11.insertPattern = "%s/%08X.json" ∧ 0 < Gen.C11.indent := by decide
+
+/-- every ctype / pytype string of the two element classes' type tables is printable ASCII (so `Core.Valid` holds
+for the type fields of every element a device can announce) -/
+theorem gen_type_strings_valid :
+    ∀ s ∈ Gen.C11.logCTypes ++ Gen.C11.logPyTypes ++ Gen.C11.paramCTypes ++ Gen.C11.paramPyTypes, ValidStr (ofString s) := by
+  decide
+
+/-- `_decoder (_encoder e) = e` for a log element (ident, group, name, ctype, pytype, access) and for a parameter
+element (the same and `extended`): the dict the encoder emits is rebuilt into an element with identical fields. -/
+theorem decoder_encoder_id (e : Elem) : loadObj loadLeaf (encoder e) = .ok e.toVal := loadElem_eq e
+
+/-- two typed elements with the same in-memory value agree on class and on every stored field -/
+theorem elem_toVal_injective (e e' : Elem) (h : e.toVal = e'.toVal) : e = e' := by
+  cases e with
+  | log c =>
+    cases e' with
+    | log c' =>
+      obtain ⟨a1, a2, a3, a4, a5, a6⟩ := c
+      obtain ⟨b1, b2, b3, b4, b5, b6⟩ := c'
+      simp only [Elem.toVal, JVal.elem.injEq, JVal.int.injEq, true_and, and_true] at h
+      obtain ⟨h1, h2, h3, h4, h5, h6⟩ := h
+      subst h1 h2 h3 h4 h5 h6; rfl
+    | param c' x => simp [Elem.toVal] at h
+  | param c x =>
+    cases e' with
+    | log c' => simp [Elem.toVal] at h
+    | param c' x' =>
+      obtain ⟨a1, a2, a3, a4, a5, a6⟩ := c
+      obtain ⟨b1, b2, b3, b4, b5, b6⟩ := c'
+      simp only [Elem.toVal, JVal.elem.injEq, JVal.int.injEq, true_and, Option.some.injEq, JVal.bool.injEq] at h
+      obtain ⟨h1, h2, h3, h4, h5, h6, h7⟩ := h
+      subst h1 h2 h3 h4 h5 h6 h7; rfl
+
+/-- **load = store.**  For every table that is a dict of dicts (duplicate-free keys) of elements whose strings are
+sequences of Unicode scalar values and that has no group or variable called `__class__`:
+`json.loads(json.dumps(toc, indent=2, default=_encoder), object_hook=_decoder)` is the table itself, group for group,
+name for name, element for element. -/
+theorem load_eq_store (t : Toc) (hv : TocValid t) (hwf : TocWF t) (hc : NoClassKey t) :
+    loads (printToc t) = .ok (tocVal t) := by
+  rw [loads_printToc t hv, loadToc_plain t hwf hc]
+
+/-- Without the `__class__` restriction the file still never loads as anything else: it loads as the stored table or
+`json.load` raises (the hook runs `eval` on a non-string), which `fetch` turns into a miss. -/
+theorem load_never_wrong (t : Toc) (hv : TocValid t) (hwf : TocWF t) :
+    loads (printToc t) = .ok (tocVal t) ∨ loads (printToc t) = .error .exc := by
+  rw [loads_printToc t hv]; exact loadToc_cases t hwf
+
+/-- ... at the level of `TocCache`: `insert(crc, toc)` into a writable rw directory followed by `fetch(crc)` returns the
+stored table (or `None` when a key is `__class__`): never another table, never an exception. -/
+theorem fetch_after_insert_eq_store (fs : FS) (c : Cache) (crc : Nat) (t : Toc) (d : Path) (hrw : c.rw = some d)
+    (hw : fs.canWrite d = true) (hv : TocValid t) (hwf : TocWF t) :
+    ((c.insert fs crc t).2.fetch (c.insert fs crc t).1 crc = .ok (tocVal t) ∨
+     (c.insert fs crc t).2.fetch (c.insert fs crc t).1 crc = .ok .null) ∧
+    (NoClassKey t → (c.insert fs crc t).2.fetch (c.insert fs crc t).1 crc = .ok (tocVal t)) := by
+  rw [fetch_after_insert fs c crc t d hrw hw, loadBytes_printToc t hv]
+  constructor
+  · rcases loadToc_cases t hwf with h | h <;> rw [h] <;> simp
+  · intro hc; rw [loadToc_plain t hwf hc]
+
+/-- a downloaded table is such a dict: `Toc.add_element` keeps group names and the names inside a group unique -/
+theorem downloaded_table_is_dict (es : List Elem) : TocWF (addAll [] es) := wf_addAll [] es wf_nil
+
+/-! ## Clause 3: missing, truncated or unparsable file = miss; the table is then downloaded -/
+
+/-- **Prefix lemma (general).**  Whatever text ending in `}` `json.loads` accepts, it rejects every proper prefix of it. -/
+theorem json_proper_prefix_rejected (text : Str) (v : JVal) (h : loads (text ++ [125]) = .ok v) (k : Nat)
+    (hk : k ≤ text.length) : loads ((text ++ [125]).take k) = .error .exc :=
+  loads_proper_prefix text v h k hk
+
+/- Full statement of the truncation clause:
+     ∀ t (TocValid t) (TocWF t) k, k < (encodeText (printToc t)).length →
+       loadBytes ((encodeText (printToc t)).take k) = .error .exc
+   Proved below for every table whose COMPLETE file loads (by `load_eq_store`: every valid duplicate-free table without a
+   `__class__` key).  Missing: tables with a group/variable named `__class__` - their complete file is itself a miss
+   (`load_never_wrong`), and that their proper prefixes are misses too is validated by the correspondence (every offset of
+   such tables is run on the real code and the model) but not proved: the proof uses acceptance of the complete text. -/
+
+/-- **Truncation is a miss.**  Every proper prefix of the bytes `insert` writes for a table (that loads when complete)
+makes `json.load` raise. -/
+theorem truncation_is_miss_partial (t : Toc) (hv : TocValid t) (hwf : TocWF t) (hc : NoClassKey t) (k : Nat)
+    (hk : k < (encodeText (printToc t)).length) :
+    loadBytes ((encodeText (printToc t)).take k) = .error .exc :=
+  loadBytes_truncated t (tocVal t) (load_eq_store t hv hwf hc) k hk
+
+/-- ... hence `fetch` returns `None` when the file it hits is such a truncated file -/
+theorem truncated_file_is_miss (fs : FS) (c : Cache) (crc : Nat) (p : Path) (t : Toc) (hv : TocValid t) (hwf : TocWF t)
+    (hc : NoClassKey t) (k : Nat) (hk : k < (encodeText (printToc t)).length)
+    (hh : findHit c.files (hex08 crc ++ dotJson) = some p) (hr : fs.read p = some ((encodeText (printToc t)).take k)) :
+    c.fetch fs crc = .ok .null := by
+  rw [fetch_of_hit fs c crc p _ hh hr, truncation_is_miss_partial t hv hwf hc k hk]
+
+/-- no matching cached path, or the matching file cannot be opened: `None` -/
+theorem missing_file_is_miss (fs : FS) (c : Cache) (crc : Nat) :
+    (findHit c.files (hex08 crc ++ dotJson) = none → c.fetch fs crc = .ok .null) ∧
+    (∀ p, findHit c.files (hex08 crc ++ dotJson) = some p → fs.read p = none → c.fetch fs crc = .ok .null) :=
+  ⟨fetch_no_hit fs c crc, fun p => fetch_vanished fs c crc p⟩
+
+/-- any file on which `json.load(.., object_hook=_decoder)` raises an `Exception` (bad UTF-8, bad JSON, missing key,
+`eval` of a non-string): `None`, no exception leaves `fetch` -/
+theorem unparsable_file_is_miss (fs : FS) (c : Cache) (crc : Nat) (p : Path) (bs : List UInt8)
+    (hh : findHit c.files (hex08 crc ++ dotJson) = some p) (hr : fs.read p = some bs) (hb : loadBytes bs = .error .exc) :
+    c.fetch fs crc = .ok .null := by
+  rw [fetch_of_hit fs c crc p bs hh hr, hb]
+
+/-- **Crash during the write.**  `insert` is cut after any `k` bytes (process killed, or `write` raised); the next
+process builds a new `TocCache` over the same directories; provided no foreign file in the rw directory has a name
+ending in the same pattern, `fetch` of that checksum is a miss. -/
+theorem crash_then_restart_is_miss (fs : FS) (c : Cache) (crc : Nat) (t : Toc) (k : Nat) (d : Path) (ro : Option Path)
+    (hrw : c.rw = some d) (hw : fs.canWrite d = true) (hcrc : crc < 4294967296)
+    (hv : TocValid t) (hwf : TocWF t) (hc : NoClassKey t) (hk : k < (encodeText (printToc t)).length)
+    (fs2 : FS) (c2 : Cache) (hinit : Cache.init (c.insertCut fs crc t k).1 ro (some d) = .ok (fs2, c2))
+    (huniq : ∀ q ∈ glob (c.insertCut fs crc t k).1 d, endsWith q (hex08 crc ++ dotJson) = true → q = storedName d crc) :
+    c2.fetch fs2 crc = .ok .null :=
+  crash_restart_aux fs c crc t k d ro hrw hw hcrc (tocVal t) (load_eq_store t hv hwf hc) hk fs2 c2 hinit huniq
+
+/-- **A miss is downloaded.**  When `fetch` returns something falsy (`None` for every case above, or an empty table) the
+fetcher requests element 0 (and with an empty device table stores `{}` and finishes) ... -/
+theorem miss_starts_download (w : World) (nbr crc : Nat) (hs : w.f.state = .getInfo) (v : JVal)
+    (hf : w.cache.fetch w.fs crc = .ok v) (ht : truthy v = .ok false) (hn : 0 < nbr) :
+    fetcherStep w (.info nbr crc) =
+      .ok ({ w with f := { w.f with nbr := nbr, crc := crc, state := .getElem, requested := 0 } }, [.request 0]) :=
+  fetcher_info_miss w nbr crc hs v hf ht hn
+
+/-- ... and the element replies, in index order, are all added, each next index requested, and after the last one the
+table is stored under the announced checksum and completion reported: the table is the device's, entry for entry -/
+theorem miss_download_completes (es : List Elem) (hne : es ≠ []) (w : World) (t : Toc) (i : Nat)
+    (hs : w.f.state = .getElem) (hr : w.f.requested = i) (hn : w.f.nbr = i + es.length) (ht : w.f.toc = .typed t) :
+    ∃ w', runEvents w (elemEvents i es) = .ok (w', requestsFrom (i + 1) (es.length - 1) ++ [.finished]) ∧
+      w'.f.toc = .typed (addAll t es) ∧ w'.f.state = .done ∧
+      (w'.fs, w'.cache) = w.cache.insert w.fs w.f.crc (addAll t es) :=
+  download_completes es hne w t i hs hr hn ht
+
+/-- a hit yields the cached value as the table and completes without requesting any element -/
+theorem hit_uses_cache (w : World) (nbr crc : Nat) (hs : w.f.state = .getInfo) (v : JVal)
+    (hf : w.cache.fetch w.fs crc = .ok v) (ht : truthy v = .ok true) :
+    fetcherStep w (.info nbr crc) =
+      .ok ({ w with f := { w.f with nbr := nbr, crc := crc, toc := .loaded v, state := .done } }, [.finished]) :=
+  fetcher_info_hit w nbr crc hs v hf ht
+
 /-! ## Clause 4: the read-only cache directory is never written -/
 
 /-- `insert` (complete or cut short) changes no file directly inside a directory other than the rw directory;
@@ -82,6 +237,46 @@ theorem init_never_writes_files (fs fs' : FS) (ro rw : Option Path) (c : Cache)
     (h : Cache.init fs ro rw = .ok (fs', c)) (p : Path) : fs'.read p = fs.read p :=
   (init_read fs ro rw fs' c h p).1
 
+/-! ## Known finding D17: the cache key is the checksum alone -/
+
+def cxDir : Path := ofString "/rw"
+def cxLogToc : Toc := [([103], [([110], .log ⟨0, [103], [110], [99], [112], 0⟩)])]
+
+theorem cxLogToc_ok : TocValid cxLogToc ∧ TocWF cxLogToc ∧ NoClassKey cxLogToc := by
+  refine ⟨?_, ⟨by decide, ?_⟩, ⟨by decide, ?_⟩⟩
+  · intro g hg
+    simp only [cxLogToc, List.mem_singleton] at hg
+    subst hg
+    refine ⟨by decide, ?_⟩
+    intro m hm
+    simp only [List.mem_singleton] at hm
+    subst hm
+    exact ⟨by decide, by decide, by decide, by decide, by decide⟩
+  · intro g hg
+    simp only [cxLogToc, List.mem_singleton] at hg
+    subst hg; decide
+  · intro g hg
+    simp only [cxLogToc, List.mem_singleton] at hg
+    subst hg; decide
+
+/-- A log table is stored under checksum 7; a fetcher for the PARAMETER table that is told checksum 7 by the device
+takes that file as a hit: its table is the log table (LogTocElements), nothing is downloaded.  (`TocFetcher` never looks at
+its `element_class` on the cache path; the file name carries the checksum only.) -/
+theorem collision_counterexample :
+    let fs0 : FS := ⟨[], [cxDir], false⟩
+    let c0 : Cache := ⟨[], some cxDir⟩
+    let paramFetcher : Fetcher := ⟨.getInfo, 0, 0, 0, .typed []⟩
+    ∃ w', fetcherStep ⟨(c0.insert fs0 7 cxLogToc).1, (c0.insert fs0 7 cxLogToc).2, paramFetcher⟩ (.info 1 7) = .ok (w', [.finished]) ∧
+      w'.f.toc = .loaded (tocVal cxLogToc) ∧ (∀ g ∈ cxLogToc, ∀ m ∈ g.2, m.2.cls = .log) := by
+  intro fs0 c0 paramFetcher
+  have hf := (fetch_after_insert_eq_store fs0 c0 7 cxLogToc cxDir rfl (by decide) cxLogToc_ok.1 cxLogToc_ok.2.1).2 cxLogToc_ok.2.2
+  refine ⟨_, fetcher_info_hit ⟨_, _, paramFetcher⟩ 1 7 rfl (tocVal cxLogToc) hf (by simp [tocVal, cxLogToc, truthy]), rfl, ?_⟩
+  intro g hg m hm
+  simp only [cxLogToc, List.mem_singleton] at hg
+  subst hg
+  simp only [List.mem_singleton] at hm
+  subst hm; rfl
+
 /-! ## Non-vacuity -/
 
 example : fetchPattern 0xBEEF = some (ofString "0000BEEF.json") := by
@@ -93,5 +288,15 @@ example : (⟨[ofString "/rw/0000BEEF.json"], some (ofString "/rw")⟩ : Cache).
   intro p hp
   simp only [List.mem_singleton] at hp
   exact ⟨ofString "/rw", 0xBEEF, by decide, by rw [hp, storedName, hex08_lt _ (by decide)]; decide⟩
+
+example : cxLogToc_ok.1 = cxLogToc_ok.1 := rfl
+example : loads (ofString "{\"a\": [1, true]}") = .ok (.obj [(ofString "a", .arr [.int 1, .bool true])]) := by rfl
+example : loads (ofString "{\"a\": [1, tr") = .error .exc := by rfl
+set_option maxRecDepth 16384 in
+example : loads (ofString "{\"g\": {\"n\": {\"__class__\": \"LogTocElement\", \"ident\": 3, \"group\": \"g\", \"name\": \"n\", \"ctype\": \"c\", \"pytype\": \"p\", \"access\": 0}}}")
+    = .ok (tocVal [([103], [([110], .log ⟨3, [103], [110], [99], [112], 0⟩)])]) := by rfl
+example : truthy .null = .ok false ∧ truthy (.obj []) = .ok false := ⟨rfl, rfl⟩
+example : TocWF (addAll [] [.log ⟨0, [103], [110], [99], [112], 0⟩, .param ⟨1, [103], [110], [99], [112], 1⟩ true]) :=
+  downloaded_table_is_dict _
 
 end CfVerif.C11
